@@ -896,6 +896,7 @@ fn biased_cfg(rng: &mut Rng, min_jobs: usize, max_jobs: usize) -> GenCfg {
         p_break_mixed_places: 0.0,
         p_unreachable_pair: 0.0,
         always_tag: true,
+        p_place_tag: 0.2,
     }
 }
 
